@@ -171,8 +171,7 @@ class World:
         if cls == "cflag0":
             return bytes([pk[0] & 0x7f]) + pk[1:]
         if cls == "inf_badflags":
-            return rng.choice([bytes([0xe0]) + bytes(47), bytes([pk[0] | 0x40]) + pk[1:], bytes([0x40]) + bytes(47),
-                               bytes([0xc0]) + bytes(46) + b"\x01"])
+            return rng.choice([bytes([0xe0]) + bytes(47), bytes([pk[0] | 0x40]) + pk[1:], bytes([0xc0]) + bytes(46) + b"\x01"])
         if cls == "x_ge_p":
             return self._word(1, 0, rng.randrange(2), rng.choice([p, p + 1, 2 ** 381 - 1, p + rng.randrange(2, 1000)]))
         if cls == "identity":
@@ -202,7 +201,10 @@ class World:
         if cls == "cflag0":
             return bytes([sg[0] & 0x7f]) + sg[1:]
         if cls == "inf_badflags":
-            return rng.choice([bytes([0xe0]) + bytes(95), bytes([sg[0] | 0x40]) + sg[1:], bytes([0xc0]) + bytes(94) + b"\x01"])
+            cands = [bytes([0xe0]) + bytes(95), bytes([0xc0]) + bytes(94) + b"\x01", bytes([0xc0]) + bytes(47) + b"\x01" + bytes(47)]
+            if sg[0] & 0x40 == 0:
+                cands.append(bytes([sg[0] | 0x40]) + sg[1:])        # infinity flag on a finite point
+            return rng.choice(cands)
         if cls == "x_ge_p":
             return self._word(1, 0, rng.randrange(2), rng.choice([p, p + 1, 2 ** 381 - 1])) + sg[48:]
         if cls == "z2_ge_p":
@@ -226,6 +228,13 @@ class World:
             if cls == "nonsubgroup" and on:
                 P = (ob.FQ2(list(x)), ob.FQ2(list(y)), ob.FQ2.one())
                 if not g2p.subgroup_check(P):
+                    if desc and desc[0]["kind"] == "zero":
+                        return g2p.G2_to_signature(P)
+                    # the presented signature plus a cofactor-torsion component
+                    T = ob.multiply(P, self.r)
+                    if not ob.is_inf(T) and self.rng.random() < 0.5:
+                        S = g2p.signature_to_G2(sg)
+                        return g2p.G2_to_signature(ob.add(S, T))
                     return g2p.G2_to_signature(P)
 
     def key_bytes(self, pk):
@@ -233,6 +242,15 @@ class World:
 
     def sigval_bytes(self, sg):
         return bytes(self.sig_bytes(sg["desc"])) if sg["cls"] == "valid" else bytes(self.bad_sig(sg["cls"], sg["desc"]))
+
+
+def _run_chain(job):
+    """Several scenarios in ONE interpreter, one after the other, with the same concrete keys and messages."""
+    idx0, seed, scs = job
+    out = []
+    for k, sc in enumerate(scs):
+        out.append(_run_scenario((idx0 + k, seed, sc)))
+    return out
 
 
 def _run_scenario(job):
@@ -467,6 +485,8 @@ def select(scs, rng, per_group):
         # keep accepted and rejected predictions both represented
         acc = [x for x in g if x["expect"]]
         rej = [x for x in g if not x["expect"]]
+        # among the rejected ones, first those that would be accepted if the encodings were canonical
+        rej.sort(key=lambda x: 0 if x.get("core") else 1)
         out += acc[:per_group] + rej[:per_group]
     return out
 
@@ -516,6 +536,26 @@ def run(ctx: Ctx, focus):
                                                               "msg": "nomsg", "j": 0}], "bit": b}, "note": "bitflip"})
     base = len(jobs)
     jobs += [(base + i, ctx.seed * 104729 + i, sc) for i, sc in enumerate(extra)]
+    chains = []
+    if focus in ("C04", "C03"):
+        # history: a FastAggregateVerify whose aggregate key is the identity, then the identity key / signature
+        # presented to every entry point in the same interpreter with the same concrete keys
+        vk = lambda k: {"cls": "valid", "key": k}      # noqa: E731
+        ident = {"cls": "identity", "key": "K1"}
+        zero = {"cls": "valid", "desc": [{"kind": "zero", "coef": 1, "suite": "basic", "key": "K1", "msg": "nomsg", "j": 0}]}
+        for rep in range(2 if quick else 10):
+            ch = [{"entry": "FastAggregateVerify", "suite": "pop", "pks": [vk("K1"), vk("N1")], "msgs": ["m1"],
+                   "sig": {"cls": "valid", "desc": [_sign_t("pop", "K1", "m1"), _sign_t("pop", "N1", "m1")]}, "note": "chain_cancel"}]
+            for s_ in ("pop", "basic", "aug"):
+                ch += [{"entry": "KeyValidate", "suite": s_, "pks": [ident], "msgs": [], "sig": zero, "note": "chain_identity_key"},
+                       {"entry": "Verify", "suite": s_, "pks": [ident], "msgs": ["m1"], "sig": zero, "note": "chain_identity_key"},
+                       {"entry": "AggregateVerify", "suite": s_, "pks": [ident, vk("K2")], "msgs": ["m1", "m2"],
+                        "sig": {"cls": "valid", "desc": [_sign_t(s_, "K2", "m2")]}, "note": "chain_identity_key"}]
+            ch += [{"entry": "PopVerify", "suite": "pop", "pks": [ident], "msgs": [], "sig": zero, "note": "chain_identity_key"},
+                   {"entry": "FastAggregateVerify", "suite": "pop", "pks": [ident], "msgs": ["m1"], "sig": zero, "note": "chain_identity_key"},
+                   {"entry": "AggregateVerify", "suite": "pop", "pks": [vk("K1"), vk("N1")], "msgs": ["m1", "m1"], "sig": zero,
+                    "note": "chain_cancel_identity_sig"}]
+            chains.append((10 ** 6 + 100 * rep, ctx.seed * 31 + rep, ch))
     sk_jobs, kg_jobs, agg_jobs, seq_jobs = [], [], [], []
     if focus == "C01":
         reps = 1 if quick else 6
@@ -555,7 +595,9 @@ def run(ctx: Ctx, focus):
         r_kg = pool.map_async(_run_keygen, kg_jobs, chunksize=1)
         r_ag = pool.map_async(_run_agg, agg_jobs, chunksize=1)
         r_sq = pool.map_async(_run_seq, seq_jobs, chunksize=1)
+        r_ch = pool.map_async(_run_chain, chains, chunksize=1)
         rows_run, rows_sk, rows_kg, rows_ag = r_run.get(), r_sk.get() + r_sq.get(), r_kg.get(), r_ag.get()
+        rows_run = rows_run + [r for ch in r_ch.get() for r in ch]
     # (B) spec -> code: the returned boolean must be the one TLC predicted for the enumerated scenario
     nb = 0
     for row in rows_run:
